@@ -9,6 +9,7 @@ import sys
 from vlib import common
 
 N = {"quick": 500, "thorough": 12000}
+FLOW_MODELS = ("msl",)      # dialects whose statement writer has a Lean model (Naga.Model.CFlow)
 
 
 def unq(s):
@@ -154,6 +155,32 @@ def access_sweep(ck, dialect, hostile):
                    empty_note="%s offers no index bounds-check policy: no hostile access case generated" % dialect if hostile else None)
 
 
+def output_matches(r, e):
+    """`r`: driver line `ok [(binding, [words…]), …]`; `e`: `[w, …]` (the read-write buffer, binding 1) or
+    `b:[w, …];b:[…]` with `*` for don't-care (padding) words."""
+    if not r.startswith("ok"):
+        return False
+    got = {int(b): [x.strip() for x in ws.split(",")] for b, ws in re.findall(r"\((\d+), \[([^\]]*)\]\)", r)}
+    parts = e.split(";") if re.match(r"^\d+:", e) else ["1:" + e]
+    for part in parts:
+        b, ws = part.split(":", 1)
+        want = [x.strip() for x in ws.strip().strip("[]").split(",")]
+        g = got.get(int(b))
+        if g is None or len(g) != len(want) or any(w != "*" and w != x for w, x in zip(want, g)):
+            return False
+    return True
+
+
+def storage_sweep(ck, dialect, hostile):
+    """Storage-buffer probes (HLSL byte-address expansion): whole-value copies, element stores, dynamic loads and
+    dynamically indexed local copies of arrays / matrices inside a struct, against the WGSL layout rules."""
+    mode = "hostile" if hostile else "inrange"
+    expected_sweep(ck, dialect, "cstorage", 0, [dialect] + (["hostile"] if hostile else []), "cstorage-%s-%s" % (dialect, mode),
+                   dialect + "-storage-access-changes-meaning",
+                   "the emitted %s text, run by the Lean interpreter, leaves the storage buffers with other contents than the WGSL "
+                   "layout rules prescribe (or traps on an out-of-object subscript of a local copy)" % dialect.upper())
+
+
 def expected_sweep(ck, dialect, cmd, n, args, sub, kind, how, empty_note=None):
     """Run a harness command that writes cases.txt + expected.txt (oracle computed from the WGSL rules in the harness),
     execute the cases with the Lean interpreters and compare the read-write buffer."""
@@ -178,8 +205,7 @@ def expected_sweep(ck, dialect, cmd, n, args, sub, kind, how, empty_note=None):
     stat = {"agree": 0}
     for i, (r, e, t) in enumerate(zip(res, exp, tags)):
         ck.case(sub + t + str(i), nontrivial=True)
-        m = re.search(r"\(1, (\[[^\]]*\])\)", r)
-        if r.startswith("ok") and m and m.group(1) == e:
+        if output_matches(r, e):
             stat["agree"] += 1
             continue
         cls = "values" if r.startswith("ok") else re.sub(r"[0-9]+", "N", r[6:]).rstrip("]") if r.startswith("error[") else r[:60]
@@ -212,18 +238,87 @@ def expected_sweep(ck, dialect, cmd, n, args, sub, kind, how, empty_note=None):
                           "message": msg, "input": unq(mm.group(2))[:4000] if mm else None}, found_input=True)
 
 
+def helpers_check(ck, dialect, n):
+    """Exact-overload check: every call of a naga_* helper in the emitted text has an overload whose parameter types are exactly
+    the static types of its arguments (C-family overload resolution would otherwise convert silently, e.g. int64_t -> int)."""
+    out = ck.harness("chelpers", n, extra_args=[dialect], timeout=3000, subdir="chelpers-" + dialect)
+    if out is None:
+        return
+    st = ck.stats.get("chelpers-" + dialect, {})
+    for _ in range(st.get("programs", 0)):
+        ck.evaluations += 1
+    miss = os.path.join(out, "missing.txt")
+    if os.path.exists(miss):
+        l = common.read_lines(miss)[0]
+        m = re.match(r'"((?:[^"\\]|\\.)*)" "((?:[^"\\]|\\.)*)" "((?:[^"\\]|\\.)*)"', l)
+        ck.violation({"kind": dialect + "-helper-overload-missing", "count": st.get("missing-overload"),
+                      "calls": unq(m.group(1)) if m else l[:500], "wgsl": unq(m.group(2)) if m else None,
+                      "emitted": unq(m.group(3))[:6000] if m else None,
+                      "how": "a helper call in the emitted text has no overload with exactly the argument types: overload resolution "
+                             "binds it to another overload through an implicit (narrowing) conversion, so the operation is computed in the wrong type"},
+                     found_input=True)
+    for bad in ("backend-error", "cparse-error"):
+        if st.get(bad):
+            f = os.path.join(out, bad.replace("-error", "-errors") + ".txt")
+            lines = common.read_lines(f) if os.path.exists(f) else []
+            ck.violation({"kind": bad, "dialect": dialect, "count": st[bad], "first": lines[0][:3000] if lines else None}, found_input=True)
+
+
+def flow_sweep(ck, dialect, n):
+    """Statement-level tie: for every function of generated programs, the control-flow skeleton of the emitted text (read by
+    the independent parser) must be exactly the erasure of `CFlow.emit` applied to the skeleton of naga's IR statement tree,
+    and the IR tree must satisfy the well-formedness hypotheses of the statement-level theorem."""
+    sub = "cflow-" + dialect
+    out = ck.harness("cflow", n, extra_args=[dialect], timeout=3000, subdir=sub)
+    if out is None:
+        return
+    cases = os.path.join(out, "cases.txt")
+    if not os.path.exists(cases):
+        ck.tie_broken("no-cases", "the harness produced no control-flow case for " + dialect, "")
+        return
+    if not ck.run_driver(["cflow"], cases, os.path.join(out, "model.txt")):
+        return
+    res = common.read_lines(os.path.join(out, "model.txt"))
+    srcs = common.read_lines(os.path.join(out, "src.txt"))
+    texts = common.read_lines(os.path.join(out, "text.txt"))
+    tags = common.read_lines(os.path.join(out, "tags.txt"))
+    stat = {}
+    reported = 0
+    for i, (r, t) in enumerate(zip(res, tags)):
+        ck.case(sub + srcs[i] + t, nontrivial=("while" in r or "switch" in r or r == "match"))
+        key = r.split(" ")[0]
+        stat[key] = stat.get(key, 0) + 1
+        if r == "match" or r.startswith("skip"):
+            continue
+        if reported < 3:
+            reported += 1
+            ck.violation({"kind": dialect + "-control-flow-differs-from-model", "case": t, "result": r[:3000],
+                          "wgsl": unq(srcs[i][1:-1]), "emitted": unq(texts[i][1:-1])[:6000],
+                          "how": "the control-flow skeleton of the emitted text is not what the proved emission scheme (Naga.Model.CFlow) "
+                                 "produces for this function (or the IR tree violates a hypothesis of the theorem): the statement-level "
+                                 "theorem no longer applies to this output; the executed sweeps search for an input on which it matters"},
+                         found_input=False)
+    ck.extra.setdefault("control_flow_tie", {})[sub] = stat
+
+
 def run(ck, dialect, prop_module, glsl_ub_excluded=False):
     ck.trusted = ["Lean kernel", "axioms: propext, Classical.choice, Quot.sound",
                   "L1 semantics: Sem.Ops / Sem.Wgsl (WGSL), Sem.COps / Sem.CLike (target language)",
                   "Go harness: generator, cparse (independent parser of the emitted text), probes"]
     if not ck.build_harness():
         return
-    proved = regenerate_and_prove(ck, [prop_module])
+    proved = regenerate_and_prove(ck, [prop_module] + (["Naga.Props.CFlow"] if dialect in FLOW_MODELS else []))
     if not ck.driver():
         return
     n = N.get(ck.tier, N["quick"])
     sweep(ck, dialect, "cprobesem", 0, glsl_ub_excluded)
     access_sweep(ck, dialect, hostile=False)
+    if dialect == "hlsl":
+        storage_sweep(ck, dialect, hostile=False)
+    if dialect in ("hlsl", "msl"):
+        helpers_check(ck, dialect, {"quick": 150, "thorough": 4000}.get(ck.tier, 150))
+    if dialect in FLOW_MODELS:
+        flow_sweep(ck, dialect, {"quick": 300, "thorough": 6000}.get(ck.tier, 300))
     sweep(ck, dialect, "csem", n, glsl_ub_excluded)
     if ck.tier == "thorough":
         ck.leanchecker(["Naga.Tie.CEmit", prop_module])
